@@ -32,9 +32,19 @@ import (
 	"github.com/enfein/mieru/v3/pkg/stderror"
 )
 
+// udpDestinationFilter reports whether a UDP associate packet is allowed
+// to be relayed to the destination address in its socks5 UDP header.
+type udpDestinationFilter func(dst model.AddrSpec) bool
+
 // RunUDPAssociateLoop exchanges socks5 UDP packets between a socks5 proxy client and a mieru proxy server,
 // the proxy server is connected via the PacketOverStreamTunnel.
 func RunUDPAssociateLoop(udpConn *net.UDPConn, conn *apicommon.PacketOverStreamTunnel, resolver apicommon.DNSResolver) error {
+	return runUDPAssociateLoop(udpConn, conn, resolver, nil)
+}
+
+// runUDPAssociateLoop is RunUDPAssociateLoop with an optional destination filter.
+// Packets to a destination rejected by the filter are dropped.
+func runUDPAssociateLoop(udpConn *net.UDPConn, conn *apicommon.PacketOverStreamTunnel, resolver apicommon.DNSResolver, allow udpDestinationFilter) error {
 	var udpErr atomic.Value
 
 	// addrMap maps the UDPAddr in string to the bytes in UDP associate header.
@@ -62,6 +72,11 @@ func RunUDPAssociateLoop(udpConn *net.UDPConn, conn *apicommon.PacketOverStreamT
 				udpErr.Store(err)
 				UDPAssociateErrors.Add(1)
 				return
+			}
+			if allow != nil && !allow(datagram.Addr) {
+				log.Debugf("UDP associate %v dropped packet to %v: rejected by egress rules", udpConn.LocalAddr(), datagram.Addr)
+				RejectByRules.Add(1)
+				continue
 			}
 			dstAddr, err := resolveSocks5UDPAddr(context.Background(), resolver, datagram.Addr)
 			if err != nil {
@@ -211,7 +226,7 @@ func RunUDPForwardingLoop(udpConn *net.UDPConn, conn *apicommon.PacketOverStream
 // runUDPAssociateDatagramLoop exchanges RFC 1928 SOCKS5 UDP datagrams between
 // a SOCKS5 proxy client and UDP destinations until the TCP control connection
 // is closed.
-func runUDPAssociateDatagramLoop(udpConn *net.UDPConn, ctrlConn net.Conn, resolver apicommon.DNSResolver) error {
+func runUDPAssociateDatagramLoop(udpConn *net.UDPConn, ctrlConn net.Conn, resolver apicommon.DNSResolver, allow udpDestinationFilter) error {
 	if resolver == nil {
 		resolver = &net.Resolver{}
 	}
@@ -242,12 +257,24 @@ func runUDPAssociateDatagramLoop(udpConn *net.UDPConn, ctrlConn net.Conn, resolv
 		}
 
 		if clientAddr == nil || sameUDPAddr(addr, clientAddr) {
-			dstAddr, payload, err := parseUDPAssociateDatagram(buf[:n], resolver)
+			datagram, err := parseSocks5UDPDatagram(buf[:n])
 			if err != nil {
 				log.Debugf("UDP datagram relay %v dropped invalid packet from %v: %v", udpConn.LocalAddr(), addr, err)
 				UDPAssociateErrors.Add(1)
 				continue
 			}
+			if allow != nil && !allow(datagram.Addr) {
+				log.Debugf("UDP datagram relay %v dropped packet to %v: rejected by egress rules", udpConn.LocalAddr(), datagram.Addr)
+				RejectByRules.Add(1)
+				continue
+			}
+			dstAddr, err := resolveSocks5UDPAddr(context.Background(), resolver, datagram.Addr)
+			if err != nil {
+				log.Debugf("UDP datagram relay %v dropped invalid packet from %v: %v", udpConn.LocalAddr(), addr, err)
+				UDPAssociateErrors.Add(1)
+				continue
+			}
+			payload := datagram.Payload
 			if clientAddr == nil {
 				clientAddr = &net.UDPAddr{
 					IP:   append(net.IP(nil), addr.IP...),
